@@ -1281,7 +1281,11 @@ func tornRace(m *meta, rng *rand.Rand, round int) {
 		}()
 	}
 	watch(ctx)
-	for i := 0; i < 60000; i++ {
+	rounds := 60000
+	if raceBuild {
+		rounds = 8000
+	}
+	for i := 0; i < rounds; i++ {
 		c.Set(7, mkBig(uint64(1000+i), -1), kioshun.NoExpiration)
 	}
 	close(stop)
